@@ -186,7 +186,7 @@ impl Property for P {
         }
     }
     fn rule() -> String {
-        "(a) every Unicode scalar value except ESC, enumerated completely on each build: display_width(c) == table(c) <= len_utf8(c), and the scalar inside an OSC payload / after a CSI introducer is swallowed by the sequence; (b) clean token strings: == sum of table widths outside sequences found by the harness's own scanner; (c) ESC-free x,y: additivity; (d) insertion of a generated well-formed CSI/OSC at a char boundary outside existing sequences leaves the width unchanged; (e) arbitrary strings incl. malformed escapes: <= byte length. Non-trivial: (a) every scalar; (b,c,e) the string has a multi-byte character or an ESC; (d) every case. distinct = distinct serialized cases + scalars".into()
+        "(a) every Unicode scalar value except ESC, enumerated completely on each build: display_width(c) == table(c) <= len_utf8(c), the scalar inside an OSC payload / after a CSI introducer is swallowed by the sequence, and widths add up for the scalar next to the characters sharing its low 8 / low 16 bits (both orders); (b) clean token strings: == sum of table widths outside sequences found by the harness's own scanner; (c) ESC-free x,y: additivity; (d) insertion of a generated well-formed CSI/OSC at a char boundary outside existing sequences leaves the width unchanged; (e) arbitrary strings incl. malformed escapes: <= byte length. Non-trivial: (a) every scalar; (b,c,e) the string has a multi-byte character or an ESC; (d) every case. distinct = distinct serialized cases + scalars".into()
     }
     fn assumptions() -> Vec<String> {
         vec![if cfg!(feature = "full") {
@@ -259,6 +259,39 @@ impl Property for P {
                     });
                 }
             }
+            // the scalar next to the characters it would be confused with
+            // if something keyed on a truncated code point (low 8 / low 16
+            // bits): widths must still add up, in both orders
+            for mask in [0xffu32, 0xffff] {
+                let a = u & mask;
+                if a == u || a == 0x1b {
+                    continue;
+                }
+                let Some(ac) = char::from_u32(a) else { continue };
+                let wa = scan::cw(ac);
+                for t in [format!("{}{}", c, ac), format!("{}{}", ac, c)] {
+                    let got = display_width(&t);
+                    n += 1;
+                    if got != want + wa {
+                        return Some(Extra {
+                            evaluations: n,
+                            nontrivial: n,
+                            info: json!({}),
+                            failure: Some((
+                                serde_json::to_value(Case::Add {
+                                    x: c.to_string(),
+                                    y: ac.to_string(),
+                                })
+                                .unwrap(),
+                                format!(
+                                    "display_width({:?}) = {} but U+{:04X} is {} and U+{:04X} is {} columns wide",
+                                    t, got, u, want, a, wa
+                                ),
+                            )),
+                        });
+                    }
+                }
+            }
             {
                 let t = format!("\x1b[{}ma", c);
                 let want = if ('@'..='~').contains(&c) { 2 } else { 1 };
@@ -283,7 +316,7 @@ impl Property for P {
             info: json!({
                 "exhaustive": true,
                 "what": "all Unicode scalar values except ESC: alone, as the payload of an OSC sequence, and as the first byte after a CSI introducer",
-                "scalars_checked": n,
+                "evaluations_in_sweep": n,
                 "width_histogram": {"0": hist[0], "1": hist[1], "2": hist[2], "3+": hist[3]},
                 "multi_column_chars_with_width_equal_to_utf8_len": tight,
             }),
